@@ -127,6 +127,7 @@ class Interp:
         self.max_depth = max_depth
         self.prims = dict(PRIMS)
         self.obj_methods = dict(OBJ_METHODS)
+        self.axis_sizes: dict[str, set] = {}
 
     # =============================================================== entry
     def call_method(self, name: str, args=(), kw=None, after: ClassInfo | None = None):
@@ -413,16 +414,26 @@ class Interp:
                 if a not in before:
                     raise Unsupported(f"accumulator {a} undefined before loop")
                 e[a] = ZERO
+            # loop-carried locals (x = f(x, ...)): one symbolic step of the fold
+            folds = {}
+            for name in _assigned_names(s.body):
+                if name in before and name not in accs and name != s.target.id and _is_term(before[name]):
+                    symname = f"FOLD{next(_ctr)}_{name}"
+                    self.axes[symname] = self.axes_of(before[name])
+                    folds[name] = S(symname)
+                    e[name] = folds[name]
             attrs0 = dict(self.attrs)
             r = self.block(s.body, e, fr)
             if r is not None:
                 raise Unsupported("return inside for loop")
             if self.attrs != attrs0:
                 raise Unsupported(f"loop at line {s.lineno} writes solver attributes")
-            # non-accumulator locals assigned in the body must not be used afterwards: poison them
+            # other locals assigned in the body must not be used afterwards: poison them
             for name, val in e.items():
                 if name in accs:
                     env[name] = T_add(before[name], ("sumover", v, count, val))
+                elif name in folds:
+                    env[name] = before[name] if val == folds[name] else ("fold", v, count, before[name], val, folds[name])
                 elif name != s.target.id and before.get(name) != val:
                     env[name] = ("poison", name, s.lineno)
             return
@@ -747,13 +758,22 @@ class Interp:
             if idx[0] == "slice":
                 return ("app", "shape_slice", (base[1],) + idx[1:])
         if idx[0] == "tuple":
-            # multi-axis index; scalar components peel leading axes, others stay symbolic
+            # multi-axis index; scalar components peel leading axes, full slices keep them
             items = idx[1]
             if all(x[0] != "slice" and not self.axes_of(x) for x in items):
                 r = base
                 for x in items:
                     r = self.elem(r, x)
                 return r
+            if not items:
+                return base
+            first, rest = items[0], ("tuple", tuple(items[1:]))
+            if first == ("slice", NONE, NONE, NONE):
+                lb = base if base[0] == "lam" else self.eta(base)
+                if lb is not None:
+                    return ("lam", lb[1], lb[2], self.index(lb[3], rest) if items[1:] else lb[3])
+            elif first[0] != "slice" and not self.axes_of(first) and (base[0] == "lam" or self.axes_of(base)):
+                return self.index(self.elem(base, first), rest) if items[1:] else self.elem(base, first)
             return ("elem", base, tuple(items))
         if idx[0] == "slice":
             return ("app", "slice", (base,) + idx[1:])
@@ -916,6 +936,8 @@ class Interp:
             return self.axes_of(t[2]) or self.axes_of(t[3])
         if k in ("scatter", "atadd"):
             return self.axes_of(t[1])
+        if k == "fold":
+            return self.axes_of(t[3])
         if k == "poly":
             best = ()
             for mono, _c in t[1]:
@@ -1087,6 +1109,9 @@ class Interp:
     def reshape(self, recv, dims):
         if len(dims) == 1 and dims[0] == K(-1):
             return recv
+        ax = (recv[0] == "lam" and (recv[2],) + self.axes_of(recv[3])) or self.axes_of(recv)
+        if ax and len(ax) == len(dims) and all(d in self.axis_sizes.get(a, ()) for a, d in zip(ax, dims)):
+            return recv  # reshape to the shape the value already has
         if len(dims) == 2 and dims[0] == K(-1) and dims[1] == ONE:
             return recv
         if len(dims) == 3 and all(d[0] == "app" and d[1] == "shape" for d in dims):
@@ -1263,6 +1288,17 @@ def _as_store(t):
     t2 = copy.copy(t)
     t2.ctx = ast.Store()
     return t2
+
+
+def _assigned_names(body) -> list[str]:
+    out = []
+    for st in body:
+        for x in ast.walk(st):
+            if isinstance(x, ast.Assign):
+                for t in x.targets:
+                    if isinstance(t, ast.Name) and t.id not in out:
+                        out.append(t.id)
+    return out
 
 
 def _accumulators(body) -> list[str]:
